@@ -64,15 +64,41 @@ func (g *gettyClientHandler) OnOpen(session getty.Session) error {
 			ApplicationId:           conf.ApplicationID,
 			TransactionServiceGroup: conf.TxServiceGroup,
 		}}
-		err := GetGettyRemotingClient().SendAsyncRequest(request)
+		// on the session that was just opened: the load balancer would pick any
+		// session, and this server would never learn about the client
+		err := GetGettyRemotingClient().SendAsyncRequestOnSession(session, request)
 		if err != nil {
 			log.Errorf("OnOpen error: {%#v}", err.Error())
 			sessionManager.releaseSession(session)
 			return
 		}
+		// whoever has something to announce to a new server (the resource
+		// managers re-register their resources after a reconnect)
+		for _, listener := range sessionOpenListeners() {
+			listener(session)
+		}
 	}()
 
 	return nil
+}
+
+var (
+	openListeners   []func(session getty.Session)
+	openListenersMu sync.RWMutex
+)
+
+// AddSessionOpenListener registers f to be called, after the client announced
+// itself, for every session opened to a seata server.
+func AddSessionOpenListener(f func(session getty.Session)) {
+	openListenersMu.Lock()
+	defer openListenersMu.Unlock()
+	openListeners = append(openListeners, f)
+}
+
+func sessionOpenListeners() []func(session getty.Session) {
+	openListenersMu.RLock()
+	defer openListenersMu.RUnlock()
+	return append([]func(session getty.Session){}, openListeners...)
 }
 
 func (g *gettyClientHandler) OnError(session getty.Session, err error) {
